@@ -284,6 +284,11 @@ where
         if c.cut {
             ex.exhaustive = false;
         }
+        if c.capped {
+            // non-termination has been observed on this schedule: no need to pay for its siblings
+            ex.exhaustive = false;
+            break;
+        }
         if !scripted {
             break;
         }
@@ -398,9 +403,16 @@ pub fn cmd_seq(a: &Args) {
             for sem in &sems {
                 for kind in ["DC", "DS"] {
                     // (arg) -> list of (status, config description)
-                    let mut by_arg: BTreeMap<usize, Vec<(String, String)>> = BTreeMap::new();
-                    let seqlen = 2 * spec.n + 2;
-                    let seq: Vec<(usize, bool)> = (0..seqlen).map(|_| (rng.gen_range(1..=spec.n), rng.gen_bool(0.5))).collect();
+                    let mut by_arg: BTreeMap<Vec<usize>, Vec<(String, String)>> = BTreeMap::new();
+                    let seqlen = 2 * spec.n + 4;
+                    // queries over one argument or over a list of two (C07: a disjunction), each asked several times
+                    let mut pool: Vec<Vec<usize>> = (1..=spec.n).map(|x| vec![x]).collect();
+                    for _ in 0..2 {
+                        let x = rng.gen_range(1..=spec.n);
+                        let y = rng.gen_range(1..=spec.n);
+                        pool.push(vec![x, y]);
+                    }
+                    let seq: Vec<(Vec<usize>, bool)> = (0..seqlen).map(|_| (pool[rng.gen_range(0..pool.len())].clone(), rng.gen_bool(0.5))).collect();
                     for enc in encoders_for(sem, kind) {
                         for backend in &backends {
                             if backend != "cadical" && enc == "none" && sem != "ST" {
@@ -411,18 +423,20 @@ pub fn cmd_seq(a: &Args) {
                             ctl.borrow_mut().keep_clauses = false;
                             // the solver object lives across the whole sequence
                             let r = catch_unwind(AssertUnwindSafe(|| {
-                                let mut res: Vec<(usize, bool, String)> = vec![];
+                                let mut res: Vec<(Vec<usize>, bool, String)> = vec![];
                                 if kind == "DC" {
                                     let mut s = build_cred(&af, sem, enc, &ctl);
                                     for (arg, cert) in &seq {
-                                        let q = catch_unwind(AssertUnwindSafe(|| if *cert { s.is_credulously_accepted_with_certificate(arg).0 } else { s.is_credulously_accepted(arg) }));
-                                        res.push((*arg, *cert, match q { Ok(true) => "yes".into(), Ok(false) => "no".into(), Err(_) => "panic".into() }));
+                                        let refs: Vec<&usize> = arg.iter().collect();
+                                        let q = catch_unwind(AssertUnwindSafe(|| if *cert { s.are_credulously_accepted_with_certificate(&refs).0 } else { s.are_credulously_accepted(&refs) }));
+                                        res.push((arg.clone(), *cert, match q { Ok(true) => "yes".into(), Ok(false) => "no".into(), Err(_) => "panic".into() }));
                                     }
                                 } else {
                                     let mut s = build_skep(&af, sem, enc, &ctl);
                                     for (arg, cert) in &seq {
-                                        let q = catch_unwind(AssertUnwindSafe(|| if *cert { s.is_skeptically_accepted_with_certificate(arg).0 } else { s.is_skeptically_accepted(arg) }));
-                                        res.push((*arg, *cert, match q { Ok(true) => "yes".into(), Ok(false) => "no".into(), Err(_) => "panic".into() }));
+                                        let refs: Vec<&usize> = arg.iter().collect();
+                                        let q = catch_unwind(AssertUnwindSafe(|| if *cert { s.are_skeptically_accepted_with_certificate(&refs).0 } else { s.are_skeptically_accepted(&refs) }));
+                                        res.push((arg.clone(), *cert, match q { Ok(true) => "yes".into(), Ok(false) => "no".into(), Err(_) => "panic".into() }));
                                     }
                                 }
                                 res
@@ -430,10 +444,10 @@ pub fn cmd_seq(a: &Args) {
                             let bname = if backend == "cadical" { "embedded" } else { "external" };
                             if let Ok(res) = r {
                                 for (pos, (arg, cert, st)) in res.iter().enumerate() {
-                                    by_arg.entry(*arg).or_default().push((st.clone(), format!("{}/{}/{}/pos{}", enc, bname, if *cert { "cert" } else { "nocert" }, pos)));
+                                    by_arg.entry(arg.clone()).or_default().push((st.clone(), format!("{}/{}/{}/pos{}", enc, bname, if *cert { "cert" } else { "nocert" }, pos)));
                                 }
                             } else {
-                                by_arg.entry(0).or_default().push(("panic".into(), format!("{}/{}/construction", enc, bname)));
+                                by_arg.entry(vec![]).or_default().push(("panic".into(), format!("{}/{}/construction", enc, bname)));
                             }
                         }
                     }
@@ -443,7 +457,7 @@ pub fn cmd_seq(a: &Args) {
                         distinct.sort();
                         distinct.dedup();
                         let detail: Vec<String> = if distinct.len() > 1 { v.iter().map(|x| format!("{}={}", x.1, x.0)).collect() } else { vec![] };
-                        lines.push(json!({"ev": "agree", "sem": sem, "kind": kind, "arg": arg, "statuses": distinct, "n": statuses.len(), "detail": detail}).to_string());
+                        lines.push(json!({"ev": "agree", "sem": sem, "kind": kind, "args": arg, "statuses": distinct, "n": statuses.len(), "detail": detail}).to_string());
                     }
                 }
             }
@@ -480,7 +494,7 @@ pub fn cmd_static(a: &Args) {
     let backend = a.get("backend", "cadical");
 
     let jobs: Vec<(usize, AfSpec)> = afs.into_iter().enumerate().collect();
-    let results = util::par_map(jobs, threads, |(idx, spec)| {
+    util::par_map_write(jobs, threads, &out, 256, |(idx, spec)| {
         util::install_quiet_panic_hook();
         let mut lines: Vec<String> = vec![];
         for (pi, present) in presents.iter().enumerate() {
@@ -499,6 +513,7 @@ pub fn cmd_static(a: &Args) {
                         for cert in &certs {
                             if kind == "SE" && *cert { continue; }
                             let mut by_out: BTreeMap<Outcome, (Vec<String>, usize, usize, bool)> = BTreeMap::new();
+                            let mut max_calls_seen = 0usize;
                             let mut by_cc: BTreeMap<(String, CcSummary), (Vec<String>, usize)> = BTreeMap::new();
                             for enc in &encs {
                                 nq += 1;
@@ -536,6 +551,7 @@ pub fn cmd_static(a: &Args) {
                                     ent.1 += mult;
                                     ent.2 += ex.runs;
                                     ent.3 &= ex.exhaustive;
+                                    max_calls_seen = max_calls_seen.max(ex.max_calls);
                                 }
                                 if with_cc {
                                     for (c, mult) in &ex.ccs {
@@ -548,7 +564,7 @@ pub fn cmd_static(a: &Args) {
                             }
                             for (o, (encs, mult, runs, exh)) in &by_out {
                                 lines.push(json!({"ev": "q", "sem": sem, "kind": kind, "args": qa, "cert": cert, "encs": encs,
-                                    "oracle": oracle, "backend": backend, "out": outcome_json(o), "mult": mult, "runs": runs, "exh": exh}).to_string());
+                                    "oracle": oracle, "backend": backend, "out": outcome_json(o), "mult": mult, "runs": runs, "exh": exh, "maxcalls": max_calls_seen}).to_string());
                             }
                             for ((base, c), (encs, mult)) in &by_cc {
                                 lines.push(json!({"ev": "cc", "sem": sem, "kind": kind, "encs": encs, "base": base,
@@ -566,5 +582,4 @@ pub fn cmd_static(a: &Args) {
         }
         lines
     });
-    util::write_lines(&out, results.into_iter().flatten());
 }
